@@ -220,6 +220,10 @@ package staking
 // validator's unfinished withdraw records (in place: the ledger drops by that part) plus what the new record's Token is short of the old one.
 //@ func takePenalty props C07
 //@ nobody
+// The ledger clauses below stay assumed, but the one typestate fact they rest on is checked on the body: a withdraw record is
+// debited only while it is still pending (Finished == 0) — a finished record's FinalBalance has already been paid out, so
+// debiting it again would put tokens into the penalty that no account holds any more (minting, C07).
+//@ assert before call (*WithdrawRecord).DeepCopy: [only-pending-withdrawals-are-debited] record.Finished == 0
 //@ modifies c07Ledger
 //@ ensures val != nil && fresh(newVal) && c07ValWF(newVal) && c07Addr(newVal) == c07Addr(val) && fresh(totalPenalty)
 //@ ensures big(newVal.RewardsDistributable) == big(val.RewardsDistributable)
